@@ -1,3 +1,340 @@
-/- C16 — property theorems only (helper lemmas live in `Rooc/Proofs`). -/
+/-
+C16 — All front doors agree.  PROPERTY THEOREMS ONLY (helper lemmas: `Rooc/Proofs/BuilderLemmas.lean`,
+`Rooc/Proofs/ExtArith.lean`, `Rooc/Proofs/ExpVars.lean`, `Rooc/Proofs/SemDefined.lean`).
+
+Proved here, about the model of the builder door (`Rooc/Builder.lean`, diffed against
+`ModelBuilder::into_model` and `BuilderSolution::eval` in `./check C16`):
+* `toExp` is a name-for-index homomorphism (only leaves change; total exactly on in-range indices;
+  injective up to the index value when names are distinct; result mentions only declared names);
+* the builder's own evaluator `evalExpr` agrees with the language semantics `Sem.eval` wherever the latter
+  is defined, and the places where they differ are exactly the undefined ones (non-finite literal, empty
+  min/max, division by zero), with the values `evalExpr` takes there;
+* `intoModel` marks every declared variable as used, keeps their order, defaults the objective to
+  `satisfy 0`, translates the constraints one for one — hence its result is `Closed` (the hypothesis of
+  the C03 theorems) and feasibility forces EVERY declared variable, used in an expression or not, into
+  its domain.
+The agreement of the text / pipe / one-shot doors with the builder door is the correspondence run.
+-/
+import Rooc.Proofs.BuilderLemmas
+import Rooc.Proofs.SemDefined
+import Rooc.Proofs.RefLemmas
+import Rooc.Proofs.RatInst
 namespace Rooc.Props.C16
+open Rooc Rooc.Exp Rooc.Builder
+
+/-! ### 5. `toExp` : index → name homomorphism -/
+section toExp
+variable {α : Type}
+
+/-- `toExp` succeeds exactly when every leaf is a valid index (`inRange`, decidable) — where the Rust
+would index out of range the model answers `none`. -/
+theorem toExp_total (names : List String) (e : Exp α) :
+    (toExp names e).isSome = inRange names e := by
+  rw [toExp_closed, inRange]; split <;> simp_all
+
+/-- `toExp` only renames leaves: the result is `mapVars (rename names)` of the input — same constructors,
+operators, literals, list lengths, in the same positions. -/
+theorem toExp_eq_mapVars {names : List String} {e e' : Exp α} (h : toExp names e = some e') :
+    e' = mapVars (rename names) e := (toExp_eq_some.1 h).2
+
+/-- same constructor skeleton: erasing the leaf names makes input and output equal. -/
+theorem toExp_same_shape {names : List String} {e e' : Exp α} (h : toExp names e = some e') :
+    mapVars (fun _ => "") e' = mapVars (fun _ => "") e := by
+  rw [toExp_eq_mapVars h, mapVars_mapVars]; rfl
+
+/-- every variable of the translated expression is one of the declared names; more precisely the i-th
+leaf of the result is `names[k]` where `k` is the index written at the i-th leaf of the input. -/
+theorem toExp_vars {names : List String} {e e' : Exp α} (h : toExp names e = some e') :
+    (∀ s ∈ vars e', s ∈ names) ∧ vars e' = (vars e).map (rename names) := by
+  obtain ⟨hr, rfl⟩ := toExp_eq_some.1 h
+  exact ⟨mem_names_of_renamed hr, vars_mapVars _ _⟩
+
+/-- injective on shape: with pairwise distinct names, two builder expressions with the same translation
+are equal up to the spelling of each index (the model writes indices as decimal strings; `g ∘ idx`
+re-spells the leaf from its index value, for any `g`). -/
+theorem toExp_injective_on_shape {names : List String} (hnd : names.Nodup) {e₁ e₂ e' : Exp α}
+    (h₁ : toExp names e₁ = some e') (h₂ : toExp names e₂ = some e') (g : Option Nat → String) :
+    mapVars (g ∘ idx) e₁ = mapVars (g ∘ idx) e₂ := by
+  obtain ⟨hr₁, rfl⟩ := toExp_eq_some.1 h₁
+  obtain ⟨hr₂, he⟩ := toExp_eq_some.1 h₂
+  rw [← unrename hnd g hr₁, ← unrename hnd g hr₂, he]
+
+/-- without distinct names injectivity fails: indices 0 and 1 of `["x","x"]` translate alike. -/
+theorem toExp_not_injective_dup :
+    toExp ["x", "x"] (.var "0" : Exp α) = toExp ["x", "x"] (.var "1") ∧ idx "0" ≠ idx "1" := by
+  have h0 : idx "0" = some 0 := idx_repr 0
+  have h1 : idx "1" = some 1 := idx_repr 1
+  simp [toExp, h0, h1]
+
+end toExp
+
+/-! ### 4. the builder's evaluator agrees with the language semantics -/
+section evaluator
+variable {K : Type} [Field K] [LinearOrder K] [IsStrictOrderedRing K] [FloorRing K]
+
+/-- THE STATEMENT.  `var i` is the (finite) value the solution gives to the i-th declared variable and
+`ρ` any assignment of names with `ρ names[i] = var i`.  Whenever the language semantics gives the
+translated expression a value `v`, the builder's evaluator returns exactly `fin v`. -/
+theorem evalExpr_eq_eval (names : List String) (ρ : String → K) (var : Nat → Ext K)
+    (hvar : ∀ i (h : i < names.length), var i = .fin (ρ names[i]))
+    {e e' : Exp (Ext K)} {v : K} (ht : toExp names e = some e') (hv : Sem.eval ρ e' = some v) :
+    evalExpr var e = .fin v := by
+  obtain ⟨hr, rfl⟩ := toExp_eq_some.1 ht
+  exact evalExpr_fin_core names ρ var hvar e v hr hv
+
+/-- the same with definedness as a decidable hypothesis (`Sem.defined`, appendix A's "defined when"). -/
+theorem evalExpr_eq_eval_of_defined (names : List String) (ρ : String → K) (var : Nat → Ext K)
+    (hvar : ∀ i (h : i < names.length), var i = .fin (ρ names[i]))
+    {e e' : Exp (Ext K)} (ht : toExp names e = some e') (hd : Sem.defined ρ e' = true) :
+    ∃ v, Sem.eval ρ e' = some v ∧ evalExpr var e = .fin v := by
+  rw [← Sem.eval_isSome] at hd
+  obtain ⟨v, hv⟩ := Option.isSome_iff_exists.1 hd
+  exact ⟨v, hv, evalExpr_eq_eval names ρ var hvar ht hv⟩
+
+/-- reading back BY NAME: for pairwise distinct names and a value vector of the same length, the
+association list `names.zip vals` resolves `names[i]` to `vals[i]`. -/
+theorem lookup_zip : ∀ (names : List String) (vals : List K), names.Nodup →
+    vals.length = names.length → ∀ i (h : i < names.length),
+    Ref.lookup (names.zip vals) names[i] = vals.getD i 0
+  | [], _, _, _, i, h => by simp at h
+  | n :: ns, [], _, hl, _, _ => by simp at hl
+  | n :: ns, x :: xs, hnd, hl, 0, _ => by simp [Ref.lookup_cons_self]
+  | n :: ns, x :: xs, hnd, hl, i + 1, h => by
+    have hnd' := List.nodup_cons.1 hnd
+    have hi : i < ns.length := by simpa using h
+    have hne : n ≠ ns[i] := fun heq => hnd'.1 (heq ▸ List.getElem_mem hi)
+    simp only [List.zip_cons_cons, List.getElem_cons_succ, List.getD_cons_succ]
+    rw [Ref.lookup_cons_ne _ _ hne]
+    exact lookup_zip ns xs hnd'.2 (by simpa using hl) i hi
+
+/-- value-vector form (handles ↦ values, names ↦ values): with distinct names, evaluating a builder
+expression at the value vector equals the language semantics of its translation at the assignment that
+reads the same vector back by name. -/
+theorem evalExpr_eq_eval_vals (names : List String) (vals : List K) (hnd : names.Nodup)
+    (hl : vals.length = names.length) {e e' : Exp (Ext K)} {v : K} (ht : toExp names e = some e')
+    (hv : Sem.eval (Ref.lookup (names.zip vals)) e' = some v) :
+    evalExpr (fun i => .fin (vals.getD i 0)) e = .fin v :=
+  evalExpr_eq_eval names (Ref.lookup (names.zip vals)) _
+    (fun i h => by rw [lookup_zip names vals hnd hl i h]) ht hv
+
+/-- WHERE THE TWO MAY DIFFER: exactly where `Sem.eval` is undefined.  There `evalExpr` is still total and
+returns IEEE's answer: `x/0 = ±inf` by the sign of `x`, `0/0 = NaN`, `min [] = +inf`, `max [] = -inf`,
+and a non-finite literal is returned as it is. -/
+theorem evalExpr_where_undefined (ρ : String → K) (var : Nat → Ext K) :
+    let n (q : K) : Exp (Ext K) := .num (.fin q)
+    (Sem.eval ρ (.bin .div (n 1) (n 0)) = none ∧ evalExpr var (.bin .div (n 1) (n 0)) = .pinf) ∧
+    (Sem.eval ρ (.bin .div (n (-1)) (n 0)) = none ∧ evalExpr var (.bin .div (n (-1)) (n 0)) = .ninf) ∧
+    (Sem.eval ρ (.bin .div (n 0) (n 0)) = none ∧ evalExpr var (.bin .div (n 0) (n 0)) = .nan) ∧
+    (Sem.eval ρ (.min []) = none ∧ evalExpr var (.min [] : Exp (Ext K)) = .pinf) ∧
+    (Sem.eval ρ (.max []) = none ∧ evalExpr var (.max [] : Exp (Ext K)) = .ninf) ∧
+    (∀ x : Ext K, x.isFinite = false → Sem.eval ρ (.num x) = none ∧ evalExpr var (.num x) = x) := by
+  refine ⟨?_, ?_, ?_, ?_, ?_, ?_⟩
+  · simp [Sem.eval, Sem.binVal, evalExpr, ExtArith.div_fin_zero]
+  · simp [Sem.eval, Sem.binVal, evalExpr, ExtArith.div_fin_zero]
+  · simp [Sem.eval, Sem.binVal, evalExpr, ExtArith.div_fin_zero]
+  · simp [Sem.eval, Sem.evalList, evalExpr, evalList]
+  · simp [Sem.eval, Sem.evalList, evalExpr, evalList]
+  · intro x hx
+    cases x <;> simp_all [Sem.eval, evalExpr, Ext.isFinite]
+
+/-- `Sem.eval` is undefined exactly when `Sem.defined` (decidable) fails — so the theorem above covers
+every case in which the evaluators are not tied together. -/
+theorem eval_undefined_iff (ρ : String → K) (e : Exp (Ext K)) :
+    Sem.eval ρ e = none ↔ Sem.defined ρ e = false := by
+  rw [← Sem.eval_isSome]; cases Sem.eval ρ e <;> simp
+
+end evaluator
+
+/-! ### 6. `intoModel` -/
+section intoModel
+variable {α : Type} [Arith α]
+
+/-- `intoModel` succeeds exactly when every index used by a constraint or the objective is declared. -/
+theorem intoModel_total (b : BModel α) : (intoModel b).isSome = bInRange b := by
+  rw [intoModel_closed]; split <;> simp_all
+
+/-- every declared variable of the result carries the usage mark 1 (> 0), and the domain lists exactly
+the declared variables, with their types, in declaration order. -/
+theorem intoModel_marks_all {b : BModel α} {m : Model α} (h : intoModel b = some m) :
+    m.domain = b.vars.map (fun p => { name := p.1, ty := p.2, usage := 1 }) ∧
+    m.domain.map (·.name) = b.vars.map (·.1) ∧
+    (∀ d ∈ m.domain, d.usage = 1) ∧ m.domain.length = b.vars.length := by
+  rw [intoModel_closed] at h
+  split at h
+  · simp only [Option.some.injEq] at h
+    subst h
+    refine ⟨rfl, by simp [Function.comp_def], ?_, by simp⟩
+    intro d hd
+    simp only [List.mem_map] at hd
+    obtain ⟨p, _, rfl⟩ := hd
+    rfl
+  · cases h
+
+/-- no objective ⇒ `satisfy` with the literal 0. -/
+theorem intoModel_default_objective {b : BModel α} {m : Model α} (h : intoModel b = some m)
+    (hb : b.objective = none) : m.optType = .satisfy ∧ m.objective = .num Arith.zero := by
+  rw [intoModel_closed] at h
+  split at h
+  · simp only [Option.some.injEq] at h
+    subst h
+    simp [objOf, hb, mapVars]
+  · cases h
+
+/-- a given objective is kept: same direction, expression translated by `toExp`. -/
+theorem intoModel_objective {b : BModel α} {m : Model α} (h : intoModel b = some m) {ot : OptType}
+    {oe : Exp α} (hb : b.objective = some (ot, oe)) :
+    m.optType = ot ∧ toExp (b.vars.map (·.1)) oe = some m.objective := by
+  rw [intoModel_closed] at h
+  split at h
+  · next hr =>
+    simp only [Option.some.injEq] at h
+    subst h
+    simp only [bInRange, Bool.and_eq_true] at hr
+    simp only [objOf, hb, Option.getD_some] at hr ⊢
+    exact ⟨trivial, toExp_eq_some.2 ⟨hr.2, rfl⟩⟩
+  · cases h
+
+/-- constraints are translated one for one, in order: same name, comparison and assertion flag; the
+left-hand side (and for a comparison the right-hand side) translated by `toExp`. -/
+theorem intoModel_constraints {b : BModel α} {m : Model α} (h : intoModel b = some m) :
+    m.constraints.length = b.constraints.length ∧
+    ∀ i (h₁ : i < b.constraints.length) (h₂ : i < m.constraints.length),
+      let c := b.constraints[i]; let c' := m.constraints[i]
+      c'.name = c.name ∧ c'.cmp = c.cmp ∧ c'.isAssert = c.isAssert ∧
+      toExp (b.vars.map (·.1)) c.lhs = some c'.lhs ∧
+      (if c.isAssert then c'.rhs = c.rhs else toExp (b.vars.map (·.1)) c.rhs = some c'.rhs) := by
+  rw [intoModel_closed] at h
+  split at h
+  · next hr =>
+    simp only [Option.some.injEq] at h
+    subst h
+    refine ⟨by simp, ?_⟩
+    intro i h₁ h₂
+    simp only [bInRange, Bool.and_eq_true, List.all_eq_true] at hr
+    have hc := hr.1 _ (List.getElem_mem h₁)
+    simp only [cInRange, Bool.and_eq_true, Bool.or_eq_true] at hc
+    simp only [List.getElem_map, renameC, true_and]
+    refine ⟨toExp_eq_some.2 ⟨hc.1, rfl⟩, ?_⟩
+    by_cases ha : b.constraints[i].isAssert = true
+    · simp [ha]
+    · simp only [ha, Bool.false_eq_true, if_false]
+      exact toExp_eq_some.2 ⟨hc.2.resolve_left ha, rfl⟩
+  · cases h
+
+/-- the result is `Closed` — every variable occurring in it is a declared variable with a usage mark —
+which is the hypothesis of the C03 reference theorems: they apply to every builder model. -/
+theorem intoModel_closed_model {b : BModel α} {m : Model α} (h : intoModel b = some m) :
+    Ref.Closed m = true := by
+  rw [intoModel_closed] at h
+  split at h
+  · next hr =>
+    simp only [Option.some.injEq] at h
+    subst h
+    simp only [bInRange, Bool.and_eq_true, List.all_eq_true] at hr
+    have hused : ∀ s, s ∈ b.vars.map (·.1) →
+        s ∈ Ref.usedNames (b.vars.map fun p => ({ name := p.1, ty := p.2, usage := 1 } : DomVar α)) := by
+      intro s hs
+      rw [Ref.mem_usedNames]
+      obtain ⟨p, hp, rfl⟩ := List.mem_map.1 hs
+      exact ⟨_, List.mem_map.2 ⟨p, hp, rfl⟩, by simp, rfl⟩
+    simp only [Ref.Closed, List.all_eq_true, List.contains_iff_mem, Ref.modelVars, List.mem_append,
+      List.mem_flatMap]
+    rintro s (hs | ⟨c', hc', hs⟩)
+    · exact hused s (mem_names_of_renamed hr.2 s hs)
+    · obtain ⟨c, hc, rfl⟩ := List.mem_map.1 hc'
+      have hcr := hr.1 c hc
+      simp only [cInRange, Bool.and_eq_true, Bool.or_eq_true] at hcr
+      simp only [Ref.consVars, renameC] at hs
+      by_cases ha : c.isAssert = true
+      · simp only [ha, if_true] at hs
+        exact hused s (mem_names_of_renamed hcr.1 s hs)
+      · simp only [ha, Bool.false_eq_true, if_false, List.mem_append] at hs
+        rcases hs with hs | hs
+        · exact hused s (mem_names_of_renamed hcr.1 s hs)
+        · exact hused s (mem_names_of_renamed (hcr.2.resolve_left ha) s hs)
+  · cases h
+
+end intoModel
+
+/-- declared-but-unused builder variables still get a value inside their domain: any assignment feasible
+for the builder's model puts EVERY declared variable in its domain, whether or not an expression uses it. -/
+theorem intoModel_feasible_inDomain {K : Type} [Field K] [LinearOrder K] [IsStrictOrderedRing K]
+    [FloorRing K] {b : BModel (Ext K)} {m : Model (Ext K)} (h : intoModel b = some m)
+    {ρ : String → K} (hf : Sem.srcFeasible m ρ = true) :
+    ∀ p ∈ b.vars, Sem.inDomain (ρ p.1) p.2 = true := by
+  intro p hp
+  have hd := (intoModel_marks_all h).1
+  simp only [Sem.srcFeasible, Bool.and_eq_true, List.all_eq_true] at hf
+  have := hf.2 { name := p.1, ty := p.2, usage := 1 } (by rw [hd]; exact List.mem_map.2 ⟨p, hp, rfl⟩)
+  simpa using this
+
+/-! ### Non-vacuity: a concrete builder model at `K = ℚ`
+
+`x ∈ {0..5}` (index 0), `y` Boolean (index 1), `z` Boolean declared but never used (index 2);
+constraint `x + 2*y <= 6`; objective `max x + 2*y`. -/
+section examples
+attribute [local instance 2000] fieldExact
+
+private theorem i0 : idx "0" = some 0 := idx_repr 0
+private theorem i1 : idx "1" = some 1 := idx_repr 1
+
+private def v0 : Exp (Ext ℚ) := .var "0"
+private def v1 : Exp (Ext ℚ) := .var "1"
+private def lin : Exp (Ext ℚ) := .bin .add v0 (.bin .mul (.num (.fin 2)) v1)
+private def lin' : Exp (Ext ℚ) := .bin .add (.var "x") (.bin .mul (.num (.fin 2)) (.var "y"))
+
+private def exB : BModel (Ext ℚ) :=
+  { vars := [("x", .int 0 5), ("y", .bool), ("z", .bool)],
+    constraints := [{ name := "c", lhs := lin, cmp := .le, rhs := .num (.fin 6), isAssert := false }],
+    objective := some (.max, lin) }
+
+private def exM : Model (Ext ℚ) :=
+  { optType := .max, objective := lin',
+    constraints := [{ name := "c", lhs := lin', cmp := .le, rhs := .num (.fin 6), isAssert := false }],
+    domain := [{ name := "x", ty := .int 0 5, usage := 1 }, { name := "y", ty := .bool, usage := 1 },
+               { name := "z", ty := .bool, usage := 1 }] }
+
+example : toExp ["x", "y", "z"] lin = some lin' := by
+  simp [toExp, lin, lin', v0, v1, i0, i1]
+
+example : inRange ["x", "y", "z"] lin = true := by
+  simp [inRange, leafOk, vars, lin, v0, v1, i0, i1]
+
+/-- an index out of range: `toExp` fails (the Rust would panic on the slice index). -/
+example : toExp ["x"] lin = none := by
+  simp [toExp, lin, v0, v1, i0, i1]
+
+private theorem exB_intoModel : intoModel exB = some exM := by
+  simp [intoModel, exB, exM, toExp, lin, lin', v0, v1, i0, i1]
+
+/-- `evalExpr_eq_eval_vals` applies: at `x = 3, y = 1` the builder's evaluator gives `5`, the value
+of the translated expression under the language semantics. -/
+example : evalExpr (fun i => .fin (([3, 1, 0] : List ℚ).getD i 0)) lin = .fin 5 :=
+  evalExpr_eq_eval_vals (K := ℚ) ["x", "y", "z"] [3, 1, 0] (by decide) (by decide)
+    (e' := lin') (by simp [toExp, lin, lin', v0, v1, i0, i1])
+    (by rw [fieldExact_rat]; decide +kernel)
+
+/-- the theorems about `intoModel` apply to `exB`: all three declared variables are marked … -/
+example : exM.domain.map (·.name) = ["x", "y", "z"] ∧ ∀ d ∈ exM.domain, d.usage = 1 :=
+  ⟨(intoModel_marks_all exB_intoModel).2.1, (intoModel_marks_all exB_intoModel).2.2.1⟩
+
+/-- … the result is closed, so the C03 reference theorems apply to it … -/
+example : Ref.Closed exM = true := intoModel_closed_model exB_intoModel
+
+/-- … the reference solves it (`x = 4` or `5` with `y = 1`, capped at `x + 2y = 6`; first best wins) … -/
+example : Ref.refSolve exM = .optimal 6 [("x", 4), ("y", 1), ("z", 0)] := by
+  rw [fieldExact_rat]; decide +kernel
+
+/-- … and the never-used `z` is forced into `{0,1}` at every feasible point. -/
+example (ρ : String → ℚ) (hf : Sem.srcFeasible exM ρ = true) : Sem.inDomain (ρ "z") .bool = true :=
+  intoModel_feasible_inDomain exB_intoModel hf ("z", .bool) (by simp [exB])
+
+/-- default objective. -/
+example : ∃ m, intoModel { exB with objective := none } = some m ∧ m.optType = .satisfy ∧
+    m.objective = .num (.fin 0) := by
+  refine ⟨{ exM with optType := .satisfy, objective := .num (.fin 0) }, ?_, rfl, rfl⟩
+  simp [intoModel, exB, exM, toExp, lin, lin', v0, v1, i0, i1]
+
+end examples
+
 end Rooc.Props.C16
